@@ -7,7 +7,7 @@
 (* logged partner positions must equal them (H_ sub-checks guard the       *)
 (* harness, they are tool errors, not verdicts).                           *)
 (***************************************************************************)
-EXTENDS Eval, Json, IOUtils
+EXTENDS Eval, EvalFn, Json, IOUtils
 
 Rec == ndJsonDeserialize(IOEnv.TRACE)
 StuckAt == IF "STUCK" \in DOMAIN IOEnv THEN atoi(IOEnv.STUCK) ELSE 0
@@ -35,6 +35,9 @@ TQuad == /\ IsEvent("quad")
          /\ IF Valid(FromJson(Rec[l].pos))
             THEN \A k \in DOMAIN QuadChecks(Rec[l]) : QuadChecks(Rec[l])[k]
             ELSE PrintT(<<"SKIPPED-NOT-VALID", l>>)
+         \* the numbers themselves (EvalFn.tla, a transcription of src/eval.rs): a difference is DRIFT, not a verdict
+         /\ LET p == FromJson(Rec[l].pos)  m == EvalModel(p.bd, p.stm)
+            IN IF Rec[l].v = m THEN TRUE ELSE PrintT(<<"DRIFT", l, ToFEN4(p), "engine", Rec[l].v, "EvalFn", m>>)
          /\ memo' = memo \cup {<<FromJson(Rec[l].pos), Rec[l].v>>}
 TNew == IsEvent("new") /\ memo' = {}       \* a new Evaluator
 TNext == TQuad \/ TNew
